@@ -11,7 +11,7 @@ import (
 func replayDoc(pass string, t target, st *stream, rd *scriptReader, sizes []int) map[string]any {
 	d := map[string]any{"pass": pass, "target": t.String(), "stream": st.name, "block_sizes_first40": sizes,
 		"stream_bytes": len(st.data), "chunking": rd.describe(),
-		"cuts": append([]int{}, rd.cuts[:rd.ncuts]...), "zero_after": append([]bool{}, rd.zero[:rd.ncuts]...),
+		"cuts": append([]int{}, rd.cuts[:rd.ncuts]...), "kinds": kindInts(rd), "err_mask": rd.errMask,
 		"chunk": rd.chunk, "use_mask": rd.useMask, "mask": rd.mask}
 	if len(st.forms) <= 64 {
 		var f [][2]int
@@ -34,9 +34,12 @@ func replayFile(path string, max int) int {
 	var doc struct {
 		Replay struct {
 			Pass, Target, Stream string
+			Scenario             string
+			Schedule             []int
 			Forms                [][2]int
 			Cuts                 []int
-			ZeroAfter            []bool `json:"zero_after"`
+			Kinds                []int
+			ErrMask              uint32 `json:"err_mask"`
 			Chunk                int
 			UseMask              bool `json:"use_mask"`
 			Mask                 uint32
@@ -47,6 +50,17 @@ func replayFile(path string, max int) int {
 		return 2
 	}
 	r := doc.Replay
+	if r.Pass == "send" {
+		if max != scaledMax {
+			fmt.Printf("CHECK-ERROR: an interleaving replay needs the build made by ./check\n")
+			return 2
+		}
+		return replaySend(r.Scenario, r.Schedule)
+	}
+	if r.Pass == "race" {
+		fmt.Println("CHECK-ERROR: findings of the free-running race pass have no deterministic replay")
+		return 2
+	}
 	if r.Pass == "real" && max != realMax {
 		bin, err := buildChild()
 		if err != nil {
@@ -94,11 +108,11 @@ func replayFile(path string, max int) int {
 	rd.ncuts = len(r.Cuts)
 	for i, c := range r.Cuts {
 		rd.cuts[i] = c
-		if i < len(r.ZeroAfter) {
-			rd.zero[i] = r.ZeroAfter[i]
+		if i < len(r.Kinds) {
+			rd.kind[i] = uint8(r.Kinds[i])
 		}
 	}
-	rd.chunk, rd.useMask, rd.mask = r.Chunk, r.UseMask, r.Mask
+	rd.chunk, rd.useMask, rd.mask, rd.errMask = r.Chunk, r.UseMask, r.Mask, r.ErrMask
 	t := tFw
 	if r.Target == tTwin.String() {
 		t = tTwin
@@ -111,4 +125,12 @@ func replayFile(path string, max int) int {
 	}
 	fmt.Printf("REPLAY property=C11 clause=%s key=%q :: %s\n", v.clause, t.String()+": "+v.symptom, v.detail)
 	return 1
+}
+
+func kindInts(rd *scriptReader) []int {
+	out := []int{}
+	for i := 0; i < rd.ncuts; i++ {
+		out = append(out, int(rd.kind[i]))
+	}
+	return out
 }
